@@ -321,7 +321,7 @@ theorem delimMatch_v11 (b : Bytes) : delimMatch .v11 b = isMatch Gen.Rx.Netconf.
   unfold split2 isMatch
   cases find Gen.Rx.Netconf.v1Dot1Delim b <;> rfl
 
-/-! ## `messageIDPattern = (?i)(?:message-id="(\d+)")` -/
+/-! ## `messageIDPattern = (?i)(?:message-id\s*=\s*["'](\d+)["'])` -/
 
 theorem ByteAtom.congr {a : Re} {f f' : UInt8 → Bool} {G : Bytes → Prop} (h : ByteAtom a f G)
     (hf : ∀ b, f b = f' b) : ByteAtom a f' G := by
@@ -423,39 +423,7 @@ theorem byteAtom_clsS :
     rw [← hs] at this
     exact .cls this (by rcases hb with rfl | rfl <;> decide)
 
-/-- the regex atoms of the literal part, in the order of `midPrefix` -/
-def midRes : List Re :=
-  [.cls [(77, 77), (109, 109)], .cls [(69, 69), (101, 101)], .cls [(83, 83), (115, 115), (383, 383)],
-   .cls [(83, 83), (115, 115), (383, 383)], .cls [(65, 65), (97, 97)], .cls [(71, 71), (103, 103)],
-   .cls [(69, 69), (101, 101)], .lit 45, .cls [(73, 73), (105, 105)], .cls [(68, 68), (100, 100)],
-   .lit 61, .lit 34]
-
 def foldPred (x : UInt8 × UInt8) : UInt8 → Bool := fun c => c == x.1 || c == x.2
-
-def midAtoms : List (Re × (UInt8 → Bool)) := midRes.zip (midPrefix.map foldPred)
-
-theorem midAtoms_snd : midAtoms.map (·.2) = midPrefix.map foldPred := rfl
-
-theorem messageID_shape : Gen.Rx.Netconf.messageID =
-    .cat (seqRe (midAtoms.map (·.1))) (.cat (.group 1 (.plus (.cls [(48, 57)]) true)) (.lit 34)) := rfl
-
-theorem midAtoms_byteAtom : ∀ x ∈ midAtoms, ByteAtom x.1 x.2 NoLongS := by
-  intro x hx
-  simp only [midAtoms, midRes, midPrefix, List.map_cons, List.map_nil, List.zip_cons_cons,
-    List.zip_nil_right, List.mem_cons, List.not_mem_nil, or_false] at hx
-  rcases hx with rfl | rfl | rfl | rfl | rfl | rfl | rfl | rfl | rfl | rfl | rfl | rfl
-  · exact byteAtom_cls2 77 109 (by decide) (by decide) _
-  · exact byteAtom_cls2 69 101 (by decide) (by decide) _
-  · exact byteAtom_clsS
-  · exact byteAtom_clsS
-  · exact byteAtom_cls2 65 97 (by decide) (by decide) _
-  · exact byteAtom_cls2 71 103 (by decide) (by decide) _
-  · exact byteAtom_cls2 69 101 (by decide) (by decide) _
-  · exact byteAtom_byte 45 (by decide) _
-  · exact byteAtom_cls2 73 105 (by decide) (by decide) _
-  · exact byteAtom_cls2 68 100 (by decide) (by decide) _
-  · exact byteAtom_byte 61 (by decide) _
-  · exact byteAtom_byte 34 (by decide) _
 
 theorem dropFold_eq_dropPred (ps : List (UInt8 × UInt8)) : ∀ b : Bytes,
     dropFold ps b = dropPred (ps.map foldPred) b := by
@@ -503,30 +471,6 @@ theorem span_canon {f : UInt8 → Bool} (rest : Bytes) :
   rw [h] at e1 e2
   exact ⟨e1, e2⟩
 
-/-- length of the match of the message-id pattern that starts where `x` starts -/
-def idLen (x : Bytes) : Nat :=
-  12 + (((dropFold midPrefix x).getD []).takeWhile isDigit).length + 1
-
-theorem idHere_isSome_iff (x : Bytes) : (idHere x).isSome = true ↔
-    ∃ rest t, dropFold midPrefix x = some rest ∧ rest.dropWhile isDigit = QUOTE :: t ∧
-      rest.takeWhile isDigit ≠ [] := by
-  unfold idHere
-  cases hd : dropFold midPrefix x with
-  | none => simp
-  | some rest =>
-    simp only
-    cases hw : rest.dropWhile isDigit with
-    | nil => simp [hw]
-    | cons c t =>
-      simp only
-      by_cases hq : c = QUOTE
-      · subst hq
-        cases htw : rest.takeWhile isDigit with
-        | nil => simp [hw, htw]
-        | cons d ds => simp [hw, htw]
-      · have : (c == QUOTE) = false := by simpa using hq
-        simp [this, hq, hw]
-
 theorem mem_takeWhile_true {f : UInt8 → Bool} {l : Bytes} {b : UInt8}
     (h : b ∈ l.takeWhile f) : f b = true := by
   induction l with
@@ -541,9 +485,359 @@ theorem mem_takeWhile_true {f : UInt8 → Bool} {l : Bytes} {b : UInt8}
       · exact hc
       · exact ih h
 
-theorem midAtoms_length : midAtoms.length = 12 := rfl
 
-theorem isDigit_quote : isDigit QUOTE = false := by decide
+/-! ### one-byte atoms of the tail `\s*=\s*["'](\d+)["']` -/
+
+def reWS : Re := .cls [(9, 10), (12, 13), (32, 32)]
+def reQ : Re := .cls [(34, 34), (39, 39)]
+def reD : Re := .cls [(48, 57)]
+
+theorem byteAtom_ws (G : Bytes → Prop) : ByteAtom reWS isWsB G :=
+  (byteAtom_cls_ascii (rs := [(9, 10), (12, 13), (32, 32)]) (by
+    intro r hr
+    simp only [inRanges, Bool.or_false, Bool.and_eq_true, Bool.or_eq_true, decide_eq_true_eq] at hr
+    omega) G).congr (by
+    intro b; rw [Bool.eq_iff_iff]
+    simp only [inRanges, isWsB, Bool.or_false, Bool.and_eq_true, Bool.or_eq_true, decide_eq_true_eq,
+      beq_iff_eq, ← UInt8.toNat_inj]
+    have e1 : (9 : UInt8).toNat = 9 := rfl
+    have e2 : (10 : UInt8).toNat = 10 := rfl
+    have e3 : (12 : UInt8).toNat = 12 := rfl
+    have e4 : (13 : UInt8).toNat = 13 := rfl
+    have e5 : (32 : UInt8).toNat = 32 := rfl
+    omega)
+
+theorem byteAtom_quote (G : Bytes → Prop) : ByteAtom reQ isQuoteB G :=
+  (byteAtom_cls2 34 39 (by decide) (by decide) G).congr (by
+    intro b; simp only [isQuoteB]; exact Bool.or_comm _ _)
+
+theorem byteAtom_eq (G : Bytes → Prop) : ByteAtom (.lit 61) (fun b => b == EQ) G :=
+  (byteAtom_byte 61 (by decide) G).congr (by intro b; simp [EQ])
+
+/-! ### stepping through a match from offsets of one base position -/
+
+abbrev GT : Bytes → Prop := fun _ => True
+
+theorem atom_step {a : Re} {f : UInt8 → Bool} (ha : ByteAtom a f GT) (p q : Pos) (k : Nat) :
+    Matches a (p.advance k) q ↔
+      ∃ c t, p.after.drop k = c :: t ∧ f c = true ∧ q = p.advance (k + 1) := by
+  rw [ha _ _ trivial, Pos.advance_after]
+  constructor
+  · rintro ⟨c, t, hs, hc, rfl⟩
+    have hk : k ≤ p.after.length := by
+      have := congrArg List.length hs
+      rw [List.length_drop, List.length_cons] at this; omega
+    exact ⟨c, t, hs, hc, Pos.advance_advance _ _ _ hk⟩
+  · rintro ⟨c, t, hs, hc, rfl⟩
+    have hk : k ≤ p.after.length := by
+      have := congrArg List.length hs
+      rw [List.length_drop, List.length_cons] at this; omega
+    exact ⟨c, t, hs, hc, (Pos.advance_advance _ _ _ hk).symm⟩
+
+theorem star_step {a : Re} {f : UInt8 → Bool} (ha : ByteAtom a f GT) (g : Bool) (p q : Pos) (k : Nat)
+    (hk : k ≤ p.after.length) :
+    Matches (.star a g) (p.advance k) q ↔
+      ∃ n, k + n ≤ p.after.length ∧ (∀ b ∈ (p.after.drop k).take n, f b = true) ∧
+        q = p.advance (k + n) := by
+  rw [matches_star_byteAtom g suffixClosed_true ha _ _ trivial, Pos.advance_after]
+  constructor
+  · rintro ⟨n, hn, hall, rfl⟩
+    rw [List.length_drop] at hn
+    exact ⟨n, by omega, hall, Pos.advance_advance _ _ _ hk⟩
+  · rintro ⟨n, hn, hall, rfl⟩
+    exact ⟨n, by rw [List.length_drop]; omega, hall, (Pos.advance_advance _ _ _ hk).symm⟩
+
+theorem plus_step {a : Re} {f : UInt8 → Bool} (ha : ByteAtom a f GT) (g : Bool) (p q : Pos) (k : Nat)
+    (hk : k ≤ p.after.length) :
+    Matches (.plus a g) (p.advance k) q ↔
+      ∃ n, 1 ≤ n ∧ k + n ≤ p.after.length ∧ (∀ b ∈ (p.after.drop k).take n, f b = true) ∧
+        q = p.advance (k + n) := by
+  rw [matches_plus_byteAtom g suffixClosed_true ha _ _ trivial, Pos.advance_after]
+  constructor
+  · rintro ⟨n, h1, hn, hall, rfl⟩
+    rw [List.length_drop] at hn
+    exact ⟨n, h1, by omega, hall, Pos.advance_advance _ _ _ hk⟩
+  · rintro ⟨n, h1, hn, hall, rfl⟩
+    exact ⟨n, h1, by rw [List.length_drop]; omega, hall, (Pos.advance_advance _ _ _ hk).symm⟩
+
+/-- `x` decomposes as white space (`n1`), `=`, white space (`n2`), quote, digits (`d ≥ 1`), quote -/
+def TailAt (x : Bytes) (n1 n2 d : Nat) : Prop :=
+  (∀ b ∈ x.take n1, isWsB b = true) ∧ (∃ t, x.drop n1 = EQ :: t) ∧
+  (∀ b ∈ (x.drop (n1 + 1)).take n2, isWsB b = true) ∧
+  (∃ qa t, x.drop (n1 + 1 + n2) = qa :: t ∧ isQuoteB qa = true) ∧
+  1 ≤ d ∧ (∀ b ∈ (x.drop (n1 + 1 + n2 + 1)).take d, isDigit b = true) ∧
+  (∃ qb t, x.drop (n1 + 1 + n2 + 1 + d) = qb :: t ∧ isQuoteB qb = true)
+
+/-- the regenerated tail of the message-id pattern -/
+def reTail : Re :=
+  .cat (.star reWS true) (.cat (.lit 61) (.cat (.star reWS true)
+    (.cat reQ (.cat (.group 1 (.plus reD true)) reQ))))
+
+theorem length_of_drop_cons {x : Bytes} {k : Nat} {c : UInt8} {t : Bytes} (h : x.drop k = c :: t) :
+    k + 1 ≤ x.length := by
+  have := congrArg List.length h
+  rw [List.length_drop, List.length_cons] at this; omega
+
+/-- the pieces of a tail match, from the pieces of the derivation -/
+theorem tail_pieces {p a1 a2 a3 a4 a5 q : Pos}
+    (h1 : Matches (.star reWS true) p a1) (h2 : Matches (.lit 61) a1 a2)
+    (h3 : Matches (.star reWS true) a2 a3) (h4 : Matches reQ a3 a4)
+    (h5 : Matches (.plus reD true) a4 a5) (h6 : Matches reQ a5 q) :
+    ∃ n1 n2 d, TailAt p.after n1 n2 d ∧ a4 = p.advance (n1 + 1 + n2 + 1) ∧
+      a5 = p.advance (n1 + 1 + n2 + 1 + d) ∧ q = p.advance (n1 + 1 + n2 + 1 + d + 1) := by
+  have h1' : Matches (.star reWS true) (p.advance 0) a1 := h1
+  obtain ⟨n1, hn1, w1, rfl⟩ := (star_step (byteAtom_ws GT) true p a1 0 (Nat.zero_le _)).mp h1'
+  simp only [Nat.zero_add, List.drop_zero] at hn1 w1 h2
+  obtain ⟨c, t, e1, hc, rfl⟩ := (atom_step (byteAtom_eq GT) p a2 n1).mp h2
+  have hc' : c = EQ := by simpa using hc
+  subst hc'
+  have l1 := length_of_drop_cons e1
+  obtain ⟨n2, hn2, w2, rfl⟩ := (star_step (byteAtom_ws GT) true p a3 (n1 + 1) l1).mp h3
+  obtain ⟨qa, ta, e2, hqa, rfl⟩ := (atom_step (byteAtom_quote GT) p a4 (n1 + 1 + n2)).mp h4
+  have l2 := length_of_drop_cons e2
+  obtain ⟨d, hd1, hd, wd, rfl⟩ :=
+    (plus_step (byteAtom_digit GT) true p a5 (n1 + 1 + n2 + 1) l2).mp h5
+  obtain ⟨qb, tb, e3, hqb, rfl⟩ := (atom_step (byteAtom_quote GT) p q (n1 + 1 + n2 + 1 + d)).mp h6
+  exact ⟨n1, n2, d, ⟨w1, ⟨t, e1⟩, w2, ⟨qa, ta, e2, hqa⟩, hd1, wd, ⟨qb, tb, e3, hqb⟩⟩, rfl, rfl, rfl⟩
+
+theorem tail_matches (p q : Pos) :
+    Matches reTail p q ↔
+      ∃ n1 n2 d, TailAt p.after n1 n2 d ∧ q = p.advance (n1 + 1 + n2 + 1 + d + 1) := by
+  unfold reTail
+  constructor
+  · intro h
+    obtain ⟨a1, h1, h⟩ := matches_cat_iff.mp h
+    obtain ⟨a2, h2, h⟩ := matches_cat_iff.mp h
+    obtain ⟨a3, h3, h⟩ := matches_cat_iff.mp h
+    obtain ⟨a4, h4, h⟩ := matches_cat_iff.mp h
+    obtain ⟨a5, h5, h6⟩ := matches_cat_iff.mp h
+    obtain ⟨n1, n2, d, ht, _, _, hq⟩ := tail_pieces h1 h2 h3 h4 (matches_group_iff.mp h5) h6
+    exact ⟨n1, n2, d, ht, hq⟩
+  · rintro ⟨n1, n2, d, ⟨w1, ⟨t, e1⟩, w2, ⟨qa, ta, e2, hqa⟩, hd1, wd, ⟨qb, tb, e3, hqb⟩⟩, rfl⟩
+    have l1 := length_of_drop_cons e1
+    have l2 := length_of_drop_cons e2
+    have l3 := length_of_drop_cons e3
+    refine matches_cat_iff.mpr ⟨p.advance n1, ?_, ?_⟩
+    · have : Matches (.star reWS true) (p.advance 0) (p.advance n1) :=
+        (star_step (byteAtom_ws GT) true p _ 0 (Nat.zero_le _)).mpr
+          ⟨n1, by omega, by simpa using w1, by simp⟩
+      exact this
+    refine matches_cat_iff.mpr ⟨p.advance (n1 + 1), ?_, ?_⟩
+    · exact (atom_step (byteAtom_eq GT) p _ n1).mpr ⟨EQ, t, e1, by simp, rfl⟩
+    refine matches_cat_iff.mpr ⟨p.advance (n1 + 1 + n2), ?_, ?_⟩
+    · exact (star_step (byteAtom_ws GT) true p _ (n1 + 1) l1).mpr ⟨n2, by omega, w2, rfl⟩
+    refine matches_cat_iff.mpr ⟨p.advance (n1 + 1 + n2 + 1), ?_, ?_⟩
+    · exact (atom_step (byteAtom_quote GT) p _ (n1 + 1 + n2)).mpr ⟨qa, ta, e2, hqa, rfl⟩
+    refine matches_cat_iff.mpr ⟨p.advance (n1 + 1 + n2 + 1 + d), ?_, ?_⟩
+    · exact matches_group_iff.mpr
+        ((plus_step (byteAtom_digit GT) true p _ (n1 + 1 + n2 + 1) l2).mpr ⟨d, hd1, by omega, wd, rfl⟩)
+    · exact (atom_step (byteAtom_quote GT) p _ (n1 + 1 + n2 + 1 + d)).mpr ⟨qb, tb, e3, hqb, rfl⟩
+
+
+/-! ### the decomposition is forced; the scanner computes it -/
+
+theorem isQuoteB_not {q : UInt8} (h : isQuoteB q = true) : isWsB q = false ∧ isDigit q = false := by
+  simp only [isQuoteB, Bool.or_eq_true, beq_iff_eq] at h
+  rcases h with rfl | rfl <;> exact ⟨by decide, by decide⟩
+
+theorem drop_succ_of_drop_cons {x : Bytes} {k : Nat} {c : UInt8} {t : Bytes} (h : x.drop k = c :: t) :
+    x.drop (k + 1) = t := by
+  have : x.drop (k + 1) = (x.drop k).drop 1 := by rw [List.drop_drop]
+  rw [this, h]; rfl
+
+def tailW1 (x : Bytes) : Nat := (x.takeWhile isWsB).length
+def tailW2 (x : Bytes) : Nat := ((x.drop (tailW1 x + 1)).takeWhile isWsB).length
+def tailStart (x : Bytes) : Nat := tailW1 x + 1 + tailW2 x + 1
+def tailD (x : Bytes) : Nat := ((x.drop (tailStart x)).takeWhile isDigit).length
+/-- length of a match of the tail at the head of `x` -/
+def idTailLen (x : Bytes) : Nat := tailStart x + tailD x + 1
+
+theorem take_length_of_le {x : Bytes} {n : Nat} (h : n ≤ x.length) : (x.take n).length = n := by
+  rw [List.length_take]; omega
+
+theorem tailAt_unique {x : Bytes} {n1 n2 d : Nat} (h : TailAt x n1 n2 d) :
+    n1 = tailW1 x ∧ n2 = tailW2 x ∧ d = tailD x := by
+  obtain ⟨w1, ⟨t, e1⟩, w2, ⟨qa, ta, e2, hqa⟩, hd1, wd, ⟨qb, tb, e3, hqb⟩⟩ := h
+  have l1 := length_of_drop_cons e1
+  have l2 := length_of_drop_cons e2
+  have l3 := length_of_drop_cons e3
+  have u1 := (span_unique n1 x EQ t (by omega) w1 e1 (by decide)).1
+  have c1 : n1 = tailW1 x := by unfold tailW1; rw [u1, take_length_of_le (by omega)]
+  have e2' : (x.drop (n1 + 1)).drop n2 = qa :: ta := by rw [List.drop_drop]; exact e2
+  have u2 := (span_unique n2 (x.drop (n1 + 1)) qa ta (by rw [List.length_drop]; omega) w2 e2'
+    (isQuoteB_not hqa).1).1
+  have c2 : n2 = tailW2 x := by
+    unfold tailW2; rw [← c1, u2, take_length_of_le (by rw [List.length_drop]; omega)]
+  have e3' : (x.drop (n1 + 1 + n2 + 1)).drop d = qb :: tb := by rw [List.drop_drop]; exact e3
+  have u3 := (span_unique d (x.drop (n1 + 1 + n2 + 1)) qb tb (by rw [List.length_drop]; omega) wd e3'
+    (isQuoteB_not hqb).2).1
+  have c3 : d = tailD x := by
+    unfold tailD tailStart; rw [← c1, ← c2, u3, take_length_of_le (by rw [List.length_drop]; omega)]
+  exact ⟨c1, c2, c3⟩
+
+theorem idTail_of_tailAt {x : Bytes} {n1 n2 d : Nat} (h : TailAt x n1 n2 d) :
+    idTail x = some (atoiClamp ((x.drop (n1 + 1 + n2 + 1)).take d)) := by
+  obtain ⟨w1, ⟨t, e1⟩, w2, ⟨qa, ta, e2, hqa⟩, hd1, wd, ⟨qb, tb, e3, hqb⟩⟩ := h
+  have l1 := length_of_drop_cons e1
+  have l2 := length_of_drop_cons e2
+  have l3 := length_of_drop_cons e3
+  have u1 := (span_unique n1 x EQ t (by omega) w1 e1 (by decide)).2
+  have ht : t = x.drop (n1 + 1) := (drop_succ_of_drop_cons e1).symm
+  have e2' : (x.drop (n1 + 1)).drop n2 = qa :: ta := by rw [List.drop_drop]; exact e2
+  have u2 := (span_unique n2 (x.drop (n1 + 1)) qa ta (by rw [List.length_drop]; omega) w2 e2'
+    (isQuoteB_not hqa).1).2
+  have hta : ta = x.drop (n1 + 1 + n2 + 1) := (drop_succ_of_drop_cons e2).symm
+  have e3' : (x.drop (n1 + 1 + n2 + 1)).drop d = qb :: tb := by rw [List.drop_drop]; exact e3
+  have u3 := span_unique d (x.drop (n1 + 1 + n2 + 1)) qb tb (by rw [List.length_drop]; omega) wd e3'
+    (isQuoteB_not hqb).2
+  have hne : ((x.drop (n1 + 1 + n2 + 1)).take d).isEmpty = false := by
+    have : ((x.drop (n1 + 1 + n2 + 1)).take d).length = d :=
+      take_length_of_le (by rw [List.length_drop]; omega)
+    cases hz : (x.drop (n1 + 1 + n2 + 1)).take d with
+    | nil => rw [hz] at this; simp at this; omega
+    | cons _ _ => rfl
+  unfold idTail
+  rw [u1]
+  simp only [beq_self_eq_true, if_true]
+  rw [ht, u2]
+  simp only [hqa, if_true]
+  rw [hta, u3.2]
+  simp only [hqb, u3.1, hne, Bool.not_false, Bool.and_self, if_true]
+
+theorem tailAt_of_idTail {x : Bytes} (h : (idTail x).isSome = true) : ∃ n1 n2 d, TailAt x n1 n2 d := by
+  unfold idTail at h
+  obtain ⟨c1, c2⟩ := span_canon (f := isWsB) x
+  cases h1 : x.dropWhile isWsB with
+  | nil => rw [h1] at h; cases h
+  | cons e r1 =>
+    rw [h1] at h
+    simp only at h
+    by_cases he : (e == EQ) = true
+    · rw [if_pos he] at h
+      have he' : e = EQ := by simpa using he
+      subst he'
+      rw [h1] at c2
+      have hr1 : r1 = x.drop ((x.takeWhile isWsB).length + 1) := (drop_succ_of_drop_cons c2).symm
+      obtain ⟨d1, d2⟩ := span_canon (f := isWsB) r1
+      cases h2 : r1.dropWhile isWsB with
+      | nil => rw [h2] at h; cases h
+      | cons q rest =>
+        rw [h2] at h
+        simp only at h
+        by_cases hq : isQuoteB q = true
+        · rw [if_pos hq] at h
+          rw [h2] at d2
+          have hrest : rest = r1.drop ((r1.takeWhile isWsB).length + 1) :=
+            (drop_succ_of_drop_cons d2).symm
+          obtain ⟨f1, f2⟩ := span_canon (f := isDigit) rest
+          cases h3 : rest.dropWhile isDigit with
+          | nil => rw [h3] at h; cases h
+          | cons q2 t =>
+            rw [h3] at h
+            simp only at h
+            by_cases hc : (isQuoteB q2 && !(rest.takeWhile isDigit).isEmpty) = true
+            · simp only [Bool.and_eq_true, Bool.not_eq_true'] at hc
+              rw [h3] at f2
+              refine ⟨(x.takeWhile isWsB).length, (r1.takeWhile isWsB).length,
+                (rest.takeWhile isDigit).length, ?_, ⟨r1, c2⟩, ?_, ⟨q, rest, ?_, hq⟩, ?_, ?_,
+                ⟨q2, t, ?_, hc.1⟩⟩
+              · rw [c1]; intro b hb; exact mem_takeWhile_true hb
+              · rw [← hr1, d1]; intro b hb; exact mem_takeWhile_true hb
+              · rw [← List.drop_drop, ← hr1]; exact d2
+              · cases hz : rest.takeWhile isDigit with
+                | nil => rw [hz] at hc; simp at hc
+                | cons _ _ => simp
+              · have : x.drop ((x.takeWhile isWsB).length + 1 + (r1.takeWhile isWsB).length + 1)
+                    = rest := by
+                  rw [hrest, hr1, List.drop_drop]; rfl
+                rw [this, f1]; intro b hb; exact mem_takeWhile_true hb
+              · have : x.drop ((x.takeWhile isWsB).length + 1 + (r1.takeWhile isWsB).length + 1
+                    + (rest.takeWhile isDigit).length) = rest.drop (rest.takeWhile isDigit).length := by
+                  rw [hrest, hr1, List.drop_drop, List.drop_drop]; rfl
+                rw [this]; exact f2
+            · rw [if_neg hc] at h; cases h
+        · rw [if_neg hq] at h; cases h
+    · rw [if_neg he] at h; cases h
+
+theorem idTail_isSome_iff (x : Bytes) :
+    (idTail x).isSome = true ↔ TailAt x (tailW1 x) (tailW2 x) (tailD x) := by
+  constructor
+  · intro h
+    obtain ⟨n1, n2, d, ht⟩ := tailAt_of_idTail h
+    obtain ⟨rfl, rfl, rfl⟩ := tailAt_unique ht
+    exact ht
+  · intro h; rw [idTail_of_tailAt h]; rfl
+
+theorem idTailLen_le {x : Bytes} (h : (idTail x).isSome = true) : idTailLen x ≤ x.length := by
+  obtain ⟨_, _, _, _, _, _, ⟨qb, tb, e3, _⟩⟩ := (idTail_isSome_iff x).mp h
+  have := length_of_drop_cons e3
+  unfold idTailLen tailStart; omega
+
+/-- a match of the tail: exactly when the scanner's `idTail` fires, and then its end is forced -/
+theorem matches_reTail (p q : Pos) :
+    Matches reTail p q ↔
+      (idTail p.after).isSome = true ∧ q = p.advance (idTailLen p.after) := by
+  rw [tail_matches, idTail_isSome_iff]
+  constructor
+  · rintro ⟨n1, n2, d, ht, rfl⟩
+    obtain ⟨rfl, rfl, rfl⟩ := tailAt_unique ht
+    exact ⟨ht, rfl⟩
+  · rintro ⟨ht, rfl⟩
+    exact ⟨_, _, _, ht, rfl⟩
+
+
+/-! ### the whole pattern -/
+
+/-- the regex atoms of the literal part `message-id`, in the order of `midPrefix` -/
+def midRes : List Re :=
+  [.cls [(77, 77), (109, 109)], .cls [(69, 69), (101, 101)], .cls [(83, 83), (115, 115), (383, 383)],
+   .cls [(83, 83), (115, 115), (383, 383)], .cls [(65, 65), (97, 97)], .cls [(71, 71), (103, 103)],
+   .cls [(69, 69), (101, 101)], .lit 45, .cls [(73, 73), (105, 105)], .cls [(68, 68), (100, 100)]]
+
+def midAtoms : List (Re × (UInt8 → Bool)) := midRes.zip (midPrefix.map foldPred)
+
+theorem midAtoms_snd : midAtoms.map (·.2) = midPrefix.map foldPred := rfl
+
+/-- the exact shape of the regenerated term: the case-folded literal, then the tail -/
+theorem messageID_shape :
+    Gen.Rx.Netconf.messageID = .cat (seqRe (midAtoms.map (·.1))) reTail := rfl
+
+theorem midAtoms_byteAtom : ∀ x ∈ midAtoms, ByteAtom x.1 x.2 NoLongS := by
+  intro x hx
+  simp only [midAtoms, midRes, midPrefix, List.map_cons, List.map_nil, List.zip_cons_cons,
+    List.zip_nil_right, List.mem_cons, List.not_mem_nil, or_false] at hx
+  rcases hx with rfl | rfl | rfl | rfl | rfl | rfl | rfl | rfl | rfl | rfl
+  · exact byteAtom_cls2 77 109 (by decide) (by decide) _
+  · exact byteAtom_cls2 69 101 (by decide) (by decide) _
+  · exact byteAtom_clsS
+  · exact byteAtom_clsS
+  · exact byteAtom_cls2 65 97 (by decide) (by decide) _
+  · exact byteAtom_cls2 71 103 (by decide) (by decide) _
+  · exact byteAtom_cls2 69 101 (by decide) (by decide) _
+  · exact byteAtom_byte 45 (by decide) _
+  · exact byteAtom_cls2 73 105 (by decide) (by decide) _
+  · exact byteAtom_cls2 68 100 (by decide) (by decide) _
+
+theorem midAtoms_length : midAtoms.length = 10 := rfl
+
+/-- length of the match of the message-id pattern that starts where `x` starts -/
+def idLen (x : Bytes) : Nat := 10 + idTailLen (x.drop 10)
+
+theorem dropFold_midPrefix {x r0 : Bytes} (h : dropFold midPrefix x = some r0) :
+    x.length = 10 + r0.length ∧ r0 = x.drop 10 := by
+  obtain ⟨hlen, hrest⟩ := dropPred_length (by rw [← dropFold_eq_dropPred]; exact h :
+    dropPred (midPrefix.map foldPred) x = some r0)
+  simp only [List.length_map] at hlen hrest
+  have h10 : midPrefix.length = 10 := rfl
+  rw [h10] at hlen hrest
+  exact ⟨hlen, hrest⟩
+
+theorem idHere_isSome_iff (x : Bytes) : (idHere x).isSome = true ↔
+    ∃ r0, dropFold midPrefix x = some r0 ∧ (idTail r0).isSome = true := by
+  unfold idHere
+  cases dropFold midPrefix x with
+  | none => simp
+  | some r0 => simp
 
 /-- a match of the message-id pattern at `p` (no `ſ` in the rest of the text): exactly when the
 scanner's `idHere` fires, and then the end of the match is determined -/
@@ -557,91 +851,29 @@ theorem matches_messageID (p q : Pos) (hg : NoLongS p.after) :
   constructor
   · rintro ⟨q1, h1, h2⟩
     obtain ⟨hd, rfl⟩ := (hseq q1).mp h1
-    obtain ⟨hlen, hrest⟩ := dropPred_length (by rw [← dropFold_eq_dropPred]; exact hd :
-      dropPred (midPrefix.map foldPred) p.after = some (p.advance 12).after)
-    simp only [List.length_map] at hlen hrest
-    have h12 : midPrefix.length = 12 := rfl
-    rw [h12] at hlen hrest
-    have hg1 : NoLongS (p.advance 12).after := by rw [hrest]; exact hg.drop 12
-    obtain ⟨q2, h3, h4⟩ := matches_cat_iff.mp h2
-    rw [matches_group_iff,
-      matches_plus_byteAtom true NoLongS.suffixClosed (byteAtom_digit NoLongS) _ _ hg1] at h3
-    obtain ⟨n, hn1, hn2, hall, rfl⟩ := h3
-    have hg2 : NoLongS ((p.advance 12).advance n).after := by
-      rw [Pos.advance_after]; exact hg1.drop n
-    obtain ⟨c, t, hs, hc, rfl⟩ := (byteAtom_byte 34 (by decide) NoLongS _ _ hg2).mp h4
-    have hcq : c = QUOTE := by
-      have : c = 34 := by simpa using hc
-      exact this
-    subst hcq
-    rw [Pos.advance_after] at hs
-    obtain ⟨e1, e2⟩ := span_unique n (p.advance 12).after QUOTE t hn2 hall hs isDigit_quote
-    have hlenId : idLen p.after = 12 + n + 1 := by
-      unfold idLen
-      rw [hd]
-      simp only [Option.getD_some]
-      rw [e1, List.length_take, Nat.min_eq_left hn2]
-    have hn3 : n + 1 ≤ (p.advance 12).after.length := by
-      have := congrArg List.length hs
-      rw [List.length_drop, List.length_cons] at this
-      omega
-    refine ⟨⟨(p.advance 12).after, t, hd, e2, ?_⟩, ?_, ?_⟩
-    · rw [e1]
-      intro h0
-      have := congrArg List.length h0
-      rw [List.length_take, Nat.min_eq_left hn2] at this
-      simp at this; omega
-    · rw [hlenId]; omega
-    · rw [hlenId, Pos.advance_advance _ _ _ (by omega), Pos.advance_advance _ _ _ (by omega)]
-      rfl
-  · rintro ⟨⟨rest, t, hd, hdw, htw⟩, hle, rfl⟩
-    obtain ⟨hlen, hrest⟩ := dropPred_length (by rw [← dropFold_eq_dropPred]; exact hd :
-      dropPred (midPrefix.map foldPred) p.after = some rest)
-    simp only [List.length_map] at hlen hrest
-    have h12 : midPrefix.length = 12 := rfl
-    rw [h12] at hlen hrest
-    have ha12 : (p.advance 12).after = rest := by rw [Pos.advance_after, hrest]
-    have hg1 : NoLongS (p.advance 12).after := by rw [ha12, hrest]; exact hg.drop 12
-    obtain ⟨c1, c2⟩ := span_canon (f := isDigit) rest
-    have hlenId : idLen p.after = 12 + (rest.takeWhile isDigit).length + 1 := by
-      unfold idLen; rw [hd]; rfl
-    have hn2 : (rest.takeWhile isDigit).length ≤ rest.length := by
-      have := congrArg List.length (List.takeWhile_append_dropWhile (p := isDigit) (l := rest))
-      rw [List.length_append] at this; omega
-    refine ⟨p.advance 12, (hseq _).mpr ⟨by rw [ha12]; exact hd, rfl⟩, ?_⟩
-    refine matches_cat_iff.mpr ⟨(p.advance 12).advance (rest.takeWhile isDigit).length, ?_, ?_⟩
-    · rw [matches_group_iff,
-        matches_plus_byteAtom true NoLongS.suffixClosed (byteAtom_digit NoLongS) _ _ hg1]
-      refine ⟨_, ?_, by rw [ha12]; exact hn2, ?_, rfl⟩
-      · cases h0 : rest.takeWhile isDigit with
-        | nil => exact absurd h0 htw
-        | cons d ds => simp
-      · rw [ha12, c1]
-        intro b hb
-        exact mem_takeWhile_true hb
-    · have hg2 : NoLongS ((p.advance 12).advance (rest.takeWhile isDigit).length).after := by
-        rw [Pos.advance_after]; exact hg1.drop _
-      refine (byteAtom_byte 34 (by decide) NoLongS _ _ hg2).mpr ⟨QUOTE, t, ?_, by decide, ?_⟩
-      · rw [Pos.advance_after, ha12, c2, hdw]
-      · rw [hlenId, Pos.advance_advance _ _ _ (by rw [ha12]; exact hn2),
-          Pos.advance_advance _ _ _ (by omega)]
-        rfl
+    obtain ⟨hlen, hrest⟩ := dropFold_midPrefix hd
+    obtain ⟨hs, hq⟩ := (matches_reTail _ _).mp h2
+    have hle := idTailLen_le hs
+    rw [hrest] at hq hle hlen
+    refine ⟨⟨_, hd, hs⟩, by unfold idLen; omega, ?_⟩
+    rw [hq, Pos.advance_advance _ _ _ (by omega)]; rfl
+  · rintro ⟨⟨r0, hd, hs⟩, hle, rfl⟩
+    obtain ⟨hlen, hrest⟩ := dropFold_midPrefix hd
+    have ha10 : (p.advance 10).after = r0 := by rw [Pos.advance_after, hrest]
+    refine ⟨p.advance 10, (hseq _).mpr ⟨by rw [ha10]; exact hd, rfl⟩, ?_⟩
+    rw [matches_reTail, ha10]
+    refine ⟨hs, ?_⟩
+    rw [Pos.advance_advance _ _ _ (by omega), hrest]; rfl
 
 theorem idLen_le {x : Bytes} (h : (idHere x).isSome = true) : idLen x ≤ x.length := by
-  obtain ⟨rest, t, hd, hdw, _⟩ := (idHere_isSome_iff x).mp h
-  obtain ⟨hlen, _⟩ := dropPred_length (by rw [← dropFold_eq_dropPred]; exact hd :
-    dropPred (midPrefix.map foldPred) x = some rest)
-  simp only [List.length_map] at hlen
-  have h12 : midPrefix.length = 12 := rfl
-  have := congrArg List.length (List.takeWhile_append_dropWhile (p := isDigit) (l := rest))
-  rw [List.length_append, hdw, List.length_cons] at this
-  unfold idLen
-  rw [hd]
-  simp only [Option.getD_some]
-  omega
+  obtain ⟨r0, hd, hs⟩ := (idHere_isSome_iff x).mp h
+  obtain ⟨hlen, hrest⟩ := dropFold_midPrefix hd
+  have := idTailLen_le hs
+  rw [hrest] at this hlen
+  unfold idLen; omega
 
 theorem idHere_asciiHead {x : Bytes} (h : (idHere x).isSome = true) : AsciiHead x := by
-  obtain ⟨rest, _, hd, _, _⟩ := (idHere_isSome_iff x).mp h
+  obtain ⟨r0, hd, _⟩ := (idHere_isSome_iff x).mp h
   cases x with
   | nil => exact .inl rfl
   | cons c t =>
@@ -706,83 +938,69 @@ theorem firstId_isSome_eq_firstFrom (b : Bytes) :
     simp only [Option.bind_some, Option.isSome_some]
     exact this
 
+
 /-- `firstId` finds an id exactly when the message-id regex matches (texts without `ſ`). -/
 theorem firstId_isSome (b : Bytes) (hb : NoLongS b) :
     (firstId b).isSome = isMatch Gen.Rx.Netconf.messageID b := by
   rw [isMatch_eq_firstFrom _ _ (find_messageID b hb), firstId_isSome_eq_firstFrom]
 
-
 /-! ## the captured id -/
 
-theorem messageID_pieces {p q1 q2 q : Pos} (hg : NoLongS p.after)
-    (h1 : Matches (seqRe (midAtoms.map (·.1))) p q1)
-    (h3 : Matches (.plus (.cls [(48, 57)]) true) q1 q2) (h4 : Matches (.lit 34) q2 q) :
-    ∃ rest, dropFold midPrefix p.after = some rest ∧ q1 = p.advance 12 ∧ 12 ≤ p.after.length ∧
-      q1.after = rest ∧ q2 = q1.advance (rest.takeWhile isDigit).length ∧
-      (rest.takeWhile isDigit).length ≤ rest.length := by
-  have hseq := matches_seqRe NoLongS.suffixClosed midAtoms midAtoms_byteAtom p q1 hg
-  simp only [midAtoms_snd, ← dropFold_eq_dropPred, midAtoms_length] at hseq
-  obtain ⟨hd, rfl⟩ := hseq.mp h1
-  obtain ⟨hlen, hrest⟩ := dropPred_length (by rw [← dropFold_eq_dropPred]; exact hd :
-    dropPred (midPrefix.map foldPred) p.after = some (p.advance 12).after)
-  simp only [List.length_map] at hlen hrest
-  have h12 : midPrefix.length = 12 := rfl
-  rw [h12] at hlen hrest
-  have hg1 : NoLongS (p.advance 12).after := by rw [hrest]; exact hg.drop 12
-  rw [matches_plus_byteAtom true NoLongS.suffixClosed (byteAtom_digit NoLongS) _ _ hg1] at h3
-  obtain ⟨n, hn1, hn2, hall, rfl⟩ := h3
-  have hg2 : NoLongS ((p.advance 12).advance n).after := by
-    rw [Pos.advance_after]; exact hg1.drop n
-  obtain ⟨c, t, hs, hc, rfl⟩ := (byteAtom_byte 34 (by decide) NoLongS _ _ hg2).mp h4
-  have hcq : c = QUOTE := by
-    have : c = 34 := by simpa using hc
-    exact this
-  subst hcq
-  rw [Pos.advance_after] at hs
-  obtain ⟨e1, _⟩ := span_unique n (p.advance 12).after QUOTE t hn2 hall hs isDigit_quote
-  have hlen' : ((p.advance 12).after.takeWhile isDigit).length = n := by
-    rw [e1, List.length_take, Nat.min_eq_left hn2]
-  exact ⟨(p.advance 12).after, hd, rfl, by omega, rfl, by rw [hlen'], by rw [hlen']; exact hn2⟩
-
 /-- the capture table the engine can report for the message-id pattern is forced: group 1 is the
-maximal digit run after the literal part -/
+maximal digit run between the quotes -/
 theorem messageID_caps {p q : Pos} {c : Caps} (hg : NoLongS p.after)
     (h : MatchesC Gen.Rx.Netconf.messageID p [] q c) :
-    ∃ rest, dropFold midPrefix p.after = some rest ∧ 12 ≤ p.after.length ∧
-      rest = p.after.drop 12 ∧
-      c = [(1, p.off + 12, p.off + 12 + (rest.takeWhile isDigit).length)] ∧
-      (rest.takeWhile isDigit).length ≤ rest.length := by
+    ∃ r0, dropFold midPrefix p.after = some r0 ∧ TailAt r0 (tailW1 r0) (tailW2 r0) (tailD r0) ∧
+      c = [(1, p.off + 10 + tailStart r0, p.off + 10 + tailStart r0 + tailD r0)] := by
   rw [messageID_shape] at h
+  unfold reTail at h
   cases h with
-  | cat hA hBC =>
-    cases hBC with
-    | cat hG hQ =>
-      cases hG with
-      | group hD =>
-        have e1 := hA.noGroup_caps rfl
-        have e2 := hD.noGroup_caps rfl
-        have e3 := hQ.noGroup_caps rfl
-        obtain ⟨rest, hd, hq1, h12, hra, hq2, hle⟩ :=
-          messageID_pieces hg hA.forget hD.forget hQ.forget
-        refine ⟨rest, hd, h12, ?_, ?_, hle⟩
-        · rw [← hra, hq1, Pos.advance_after]
-        · subst hq1
-          have o1 := Pos.advance_off 12 p h12
-          have o2 := Pos.advance_off (rest.takeWhile isDigit).length (p.advance 12)
-            (by rw [hra]; exact hle)
-          rw [e3, e2, e1, hq2, o2, o1]
+  | cat hA hT =>
+  cases hT with
+  | cat h1 hT =>
+  cases hT with
+  | cat h2 hT =>
+  cases hT with
+  | cat h3 hT =>
+  cases hT with
+  | cat h4 hT =>
+  cases hT with
+  | cat hG h6 =>
+  cases hG with
+  | group h5 =>
+    have eA := hA.noGroup_caps rfl
+    have e1 := h1.noGroup_caps rfl
+    have e2 := h2.noGroup_caps rfl
+    have e3 := h3.noGroup_caps rfl
+    have e4 := h4.noGroup_caps rfl
+    have e5 := h5.noGroup_caps rfl
+    have e6 := h6.noGroup_caps rfl
+    have hseq := fun q1 => matches_seqRe NoLongS.suffixClosed midAtoms midAtoms_byteAtom p q1 hg
+    simp only [midAtoms_snd, ← dropFold_eq_dropPred, midAtoms_length] at hseq
+    obtain ⟨hd, hq1⟩ := (hseq _).mp hA.forget
+    obtain ⟨hlen, hrest⟩ := dropFold_midPrefix hd
+    obtain ⟨n1, n2, d, ht, ha4, ha5, _⟩ :=
+      tail_pieces h1.forget h2.forget h3.forget h4.forget h5.forget h6.forget
+    obtain ⟨rfl, rfl, rfl⟩ := tailAt_unique ht
+    refine ⟨_, hd, ht, ?_⟩
+    obtain ⟨_, _, _, _, _, _, ⟨qb, tb, e3', _⟩⟩ := ht
+    have l3 := length_of_drop_cons e3'
+    subst hq1
+    have o1 : (p.advance 10).off = p.off + 10 := Pos.advance_off _ _ (by omega)
+    have o4 := Pos.advance_off (tailW1 (p.advance 10).after + 1 + tailW2 (p.advance 10).after + 1)
+      (p.advance 10) (by omega)
+    have o5 := Pos.advance_off (tailW1 (p.advance 10).after + 1 + tailW2 (p.advance 10).after + 1
+      + tailD (p.advance 10).after) (p.advance 10) (by omega)
+    rw [e6, e5, e4, e3, e2, e1, eA, ha4, ha5, o4, o5, o1]
+    unfold tailStart
+    simp only [Nat.add_assoc]
 
-theorem idHere_eq {x rest : Bytes} (hd : dropFold midPrefix x = some rest)
-    (h : (idHere x).isSome = true) : idHere x = some (atoiClamp (rest.takeWhile isDigit)) := by
-  obtain ⟨rest', t, hd', hdw, htw⟩ := (idHere_isSome_iff x).mp h
-  rw [hd] at hd'
-  cases hd'
+theorem idHere_eq {x r0 : Bytes} (hd : dropFold midPrefix x = some r0)
+    (ht : TailAt r0 (tailW1 r0) (tailW2 r0) (tailD r0)) :
+    idHere x = some (atoiClamp ((r0.drop (tailStart r0)).take (tailD r0))) := by
   unfold idHere
   rw [hd]
-  simp only [hdw]
-  cases hz : rest.takeWhile isDigit with
-  | nil => exact absurd hz htw
-  | cons d ds => simp
+  exact idTail_of_tailAt ht
 
 /-- **The id `firstId` returns is the engine's capture group 1, read as a decimal** (texts
 without `ſ`): leftmost match, forced decomposition, maximal digit run. -/
@@ -808,18 +1026,15 @@ theorem firstId_eq_findGroup (b : Bytes) (hb : NoLongS b) :
       obtain ⟨rfl, _⟩ := hfind
       obtain ⟨p, q, _, hp, _, hpa, _, hM⟩ := find_soundC hf
       have hg : NoLongS p.after := by rw [hp.after_eq]; exact hb.drop _
-      obtain ⟨rest, hd, h12, hrest, hc, hle⟩ := messageID_caps hg hM
-      have hsome := ((matches_messageID p q hg).mp hM.forget).1
-      rw [hp.after_eq, hpa] at hd hsome hrest
+      obtain ⟨r0, hd, ht, hc⟩ := messageID_caps hg hM
+      obtain ⟨_, hrest⟩ := dropFold_midPrefix hd
+      rw [hp.after_eq, hpa] at hd hrest
       simp only [Option.bind_some]
-      rw [idHere_eq hd hsome, hc, hpa]
+      rw [idHere_eq hd ht, hc, hpa]
       simp only [Caps.get, beq_self_eq_true, if_true, Option.map_some, Option.some.injEq]
       congr 1
-      rw [List.drop_drop] at hrest
-      have : a + 12 + (rest.takeWhile isDigit).length - (a + 12) = (rest.takeWhile isDigit).length := by
-        omega
-      rw [this, ← hrest]
-      exact (span_canon rest).1.symm
+      have e1 : a + 10 + tailStart r0 + tailD r0 - (a + 10 + tailStart r0) = tailD r0 := by omega
+      rw [e1, hrest, List.drop_drop, List.drop_drop]
 
 
 end Scrapli.Rx
